@@ -77,7 +77,8 @@ loop:
 				context.Args = cmd.Flags().Args()
 			}
 
-			return traverse(subcommand(cmd, arg), args[i+1:])
+			// cobra hands the words it skipped while looking for the subcommand (`` and `-`) on to it
+			return traverse(subcommand(cmd, arg), append(append([]string{}, inPositionals...), args[i+1:]...))
 
 		// positional
 		default:
